@@ -35,8 +35,8 @@ package cmd
 //@ ensures[C20] response_limit_needs_response_buffering: flagChanged(flagsOf(ref(cmd)), "max-response-body") && !flagChanged(flagsOf(ref(cmd)), "buffer-responses") ==> err != nil
 //@ ensures[C20] tls_needs_a_host: old(c.args.ServiceOptions.TLSEnabled) && len(old(c.args.ServiceOptions.Hosts)) == 0 ==> err != nil
 //@ ensures[C20] tls_needs_the_root_path: old(c.args.ServiceOptions.TLSEnabled) && len(old(c.args.ServiceOptions.PathPrefixes)) > 0 && !(exists i int :: 0 <= i && i < len(c.args.ServiceOptions.PathPrefixes) && c.args.ServiceOptions.PathPrefixes[i] == "/") ==> err != nil
-//@ ensures[C20] forward_headers_default: err == nil && !flagChanged(flagsOf(ref(cmd)), "forward-headers") ==> c.args.TargetOptions.ForwardHeaders == !c.args.ServiceOptions.TLSEnabled
-//@ ensures[C20] explicit_forward_headers_kept: flagChanged(flagsOf(ref(cmd)), "forward-headers") ==> c.args.TargetOptions.ForwardHeaders == old(c.args.TargetOptions.ForwardHeaders)
+//@ ensures[C20,C13] forward_headers_default: err == nil && !flagChanged(flagsOf(ref(cmd)), "forward-headers") ==> c.args.TargetOptions.ForwardHeaders == !c.args.ServiceOptions.TLSEnabled
+//@ ensures[C20,C13] explicit_forward_headers_kept: flagChanged(flagsOf(ref(cmd)), "forward-headers") ==> c.args.TargetOptions.ForwardHeaders == old(c.args.TargetOptions.ForwardHeaders)
 //@ ensures[C20] accepted_otherwise: !(flagChanged(flagsOf(ref(cmd)), "max-request-body") && !flagChanged(flagsOf(ref(cmd)), "buffer-requests")) && !(flagChanged(flagsOf(ref(cmd)), "max-response-body") && !flagChanged(flagsOf(ref(cmd)), "buffer-responses")) && !old(c.args.ServiceOptions.TLSEnabled) ==> err == nil
 
 //@ func (*cmd.pauseCommand).run
@@ -46,7 +46,7 @@ package cmd
 //@ assigns *
 //@ may_emit *
 //@ ensures[C20] one_call_to_the_matching_rpc: count(RpcCall(_, _, _)) <= 1 && all(RpcCall, $1 == "kamal-proxy.Pause") && count(RpcDial(_, _)) == 1
-//@ ensures[C20] fails_exactly_when_the_proxy_reports_an_error: all(RpcCall, $2 == (result == nil)) && (none(RpcCall) ==> result != nil)
+//@ ensures[C20,C01,C06] fails_exactly_when_the_proxy_reports_an_error: all(RpcCall, $2 == (result == nil)) && (none(RpcCall) ==> result != nil)
 //@ ensures[C20] connection_closed: emitted(RpcCall(_, _, _)) ==> count(RpcClose(_)) == 1
 
 //@ func (*cmd.removeCommand).run
@@ -56,7 +56,7 @@ package cmd
 //@ assigns *
 //@ may_emit *
 //@ ensures[C20] one_call_to_the_matching_rpc: count(RpcCall(_, _, _)) <= 1 && all(RpcCall, $1 == "kamal-proxy.Remove") && count(RpcDial(_, _)) == 1
-//@ ensures[C20] fails_exactly_when_the_proxy_reports_an_error: all(RpcCall, $2 == (result == nil)) && (none(RpcCall) ==> result != nil)
+//@ ensures[C20,C01,C06] fails_exactly_when_the_proxy_reports_an_error: all(RpcCall, $2 == (result == nil)) && (none(RpcCall) ==> result != nil)
 //@ ensures[C20] connection_closed: emitted(RpcCall(_, _, _)) ==> count(RpcClose(_)) == 1
 
 //@ func (*cmd.resumeCommand).run
@@ -66,7 +66,7 @@ package cmd
 //@ assigns *
 //@ may_emit *
 //@ ensures[C20] one_call_to_the_matching_rpc: count(RpcCall(_, _, _)) <= 1 && all(RpcCall, $1 == "kamal-proxy.Resume") && count(RpcDial(_, _)) == 1
-//@ ensures[C20] fails_exactly_when_the_proxy_reports_an_error: all(RpcCall, $2 == (result == nil)) && (none(RpcCall) ==> result != nil)
+//@ ensures[C20,C01,C06] fails_exactly_when_the_proxy_reports_an_error: all(RpcCall, $2 == (result == nil)) && (none(RpcCall) ==> result != nil)
 //@ ensures[C20] connection_closed: emitted(RpcCall(_, _, _)) ==> count(RpcClose(_)) == 1
 
 //@ func (*cmd.rolloutDeployCommand).run
@@ -76,7 +76,7 @@ package cmd
 //@ assigns *
 //@ may_emit *
 //@ ensures[C20] one_call_to_the_matching_rpc: count(RpcCall(_, _, _)) <= 1 && all(RpcCall, $1 == "kamal-proxy.RolloutDeploy") && count(RpcDial(_, _)) == 1
-//@ ensures[C20] fails_exactly_when_the_proxy_reports_an_error: all(RpcCall, $2 == (result == nil)) && (none(RpcCall) ==> result != nil)
+//@ ensures[C20,C01,C06] fails_exactly_when_the_proxy_reports_an_error: all(RpcCall, $2 == (result == nil)) && (none(RpcCall) ==> result != nil)
 //@ ensures[C20] connection_closed: emitted(RpcCall(_, _, _)) ==> count(RpcClose(_)) == 1
 
 //@ func (*cmd.rolloutSetCommand).run
@@ -86,7 +86,7 @@ package cmd
 //@ assigns *
 //@ may_emit *
 //@ ensures[C20] one_call_to_the_matching_rpc: count(RpcCall(_, _, _)) <= 1 && all(RpcCall, $1 == "kamal-proxy.RolloutSet") && count(RpcDial(_, _)) == 1
-//@ ensures[C20] fails_exactly_when_the_proxy_reports_an_error: all(RpcCall, $2 == (result == nil)) && (none(RpcCall) ==> result != nil)
+//@ ensures[C20,C01,C06] fails_exactly_when_the_proxy_reports_an_error: all(RpcCall, $2 == (result == nil)) && (none(RpcCall) ==> result != nil)
 //@ ensures[C20] connection_closed: emitted(RpcCall(_, _, _)) ==> count(RpcClose(_)) == 1
 
 //@ func (*cmd.rolloutStopCommand).run
@@ -96,7 +96,7 @@ package cmd
 //@ assigns *
 //@ may_emit *
 //@ ensures[C20] one_call_to_the_matching_rpc: count(RpcCall(_, _, _)) <= 1 && all(RpcCall, $1 == "kamal-proxy.RolloutStop") && count(RpcDial(_, _)) == 1
-//@ ensures[C20] fails_exactly_when_the_proxy_reports_an_error: all(RpcCall, $2 == (result == nil)) && (none(RpcCall) ==> result != nil)
+//@ ensures[C20,C01,C06] fails_exactly_when_the_proxy_reports_an_error: all(RpcCall, $2 == (result == nil)) && (none(RpcCall) ==> result != nil)
 //@ ensures[C20] connection_closed: emitted(RpcCall(_, _, _)) ==> count(RpcClose(_)) == 1
 
 //@ func (*cmd.stopCommand).run
@@ -106,7 +106,7 @@ package cmd
 //@ assigns *
 //@ may_emit *
 //@ ensures[C20] one_call_to_the_matching_rpc: count(RpcCall(_, _, _)) <= 1 && all(RpcCall, $1 == "kamal-proxy.Stop") && count(RpcDial(_, _)) == 1
-//@ ensures[C20] fails_exactly_when_the_proxy_reports_an_error: all(RpcCall, $2 == (result == nil)) && (none(RpcCall) ==> result != nil)
+//@ ensures[C20,C01,C06] fails_exactly_when_the_proxy_reports_an_error: all(RpcCall, $2 == (result == nil)) && (none(RpcCall) ==> result != nil)
 //@ ensures[C20] connection_closed: emitted(RpcCall(_, _, _)) ==> count(RpcClose(_)) == 1
 
 //@ func (*cmd.deployCommand).run
@@ -116,7 +116,7 @@ package cmd
 //@ assigns *
 //@ may_emit *
 //@ ensures[C20] one_call_to_the_matching_rpc: count(RpcCall(_, _, _)) <= 1 && all(RpcCall, $1 == "kamal-proxy.Deploy") && count(RpcDial(_, _)) == 1
-//@ ensures[C20] fails_exactly_when_the_proxy_reports_an_error: all(RpcCall, $2 == (result == nil)) && (none(RpcCall) ==> result != nil)
+//@ ensures[C20,C01,C06] fails_exactly_when_the_proxy_reports_an_error: all(RpcCall, $2 == (result == nil)) && (none(RpcCall) ==> result != nil)
 //@ ensures[C20] connection_closed: emitted(RpcCall(_, _, _)) ==> count(RpcClose(_)) == 1
 
 //@ func (*cmd.Table).AddRow
